@@ -88,6 +88,11 @@ Sensitivity (first 12000 indices of the quick tier, mutants applied to a scratch
   C05-s4 early-init failure not aborted inside the simulation task: needs an       c
        internal event whose sender swallows the exception (kind init_early_int: relay /
        AddonPersistence restore path)
+  s8   (seeded C09-s8) _run_tasks() swallows the simulation task's CancelledError:   c
+       needs a stop (raw cancel / abort(E) / shutdown() / any fatal source) while an
+       init_async is awaited, and a second, slower init_async (plan['pa2']) so that the
+       swallowed stop shows as a delay; clauses not-terminated-promptly,
+       initialisation-continued-after-stop, reached-running-state-after-stop
   MB   run(): raw simtask.cancel() instead of abort(CancelledError) when a         c
        supporting task exits (needs: error first, supporting task exits during clean-up)
   MC   abort(): cancels the simulation task again although an error is set         c
@@ -144,7 +149,7 @@ REACH_EXPECTED = ['two_deliveries_same_instant', 'tie_order_reversed', 'later_er
                   'three_sources_fired', 'error_in_cleanup_ignored',
                   'shutdown_awaiter_cancelled', 'init_error_in_early_init',
                   'abort_inside_simtask_nothing_raised', 'abort_during_sync_init_nothing_raised',
-                  'init_error_swallowed_by_sender']
+                  'init_error_swallowed_by_sender', 'stop_while_init_task_awaited_other_pending']
 ASSUMPTIONS = [
     "delivery order = order of the records written at the fault sites and by the pass-through "
     "wrapper of Circuit.abort for cancellations that edzed itself delivers (shutdown(), SIGTERM, "
@@ -222,7 +227,7 @@ def _mk_source(rng, kind, t, hops):
     return s
 
 
-def _finish(rng, entry, sources, *, d_init, d_stop, pre=(), systematic=False):
+def _finish(rng, entry, sources, *, d_init, d_stop, pre=(), systematic=False, pa2_p=0.2):
     """Complete a plan: tags, probe configuration, non-fatal faults, knobs."""
     seen_once = set()
     out = []
@@ -246,6 +251,12 @@ def _finish(rng, entry, sources, *, d_init, d_stop, pre=(), systematic=False):
     if d_init is not None or d_stop is not None:
         pa = {'d_init': d_init or 0.0, 'd_stop': d_stop or 0.0,
               'init_fail': rng.random() < 0.25, 'stop_fail': rng.random() < 0.25}
+    pa2 = None
+    if rng.random() < pa2_p:
+        # a second block with a longer init_async: while one init task is awaited by the
+        # simulator another one is pending (init_timeout below / above the first block's 10 s
+        # decides which one is awaited first)
+        pa2 = {'d_init': 3.0, 'init_timeout': rng.choice([8.0, 12.0])}
     persist = None
     if rng.random() < 0.25:
         persist = {'restore_fail': rng.random() < 0.7}
@@ -272,7 +283,7 @@ def _finish(rng, entry, sources, *, d_init, d_stop, pre=(), systematic=False):
     if exact:
         knobs['tie_permute'] = rng.random() < 0.7
     return {'knobs': knobs, 'entry': entry, 'sources': out, 'pre': pre_list, 'pa': pa,
-            'persist': persist, 'stopf': stopf, 'mtc': mtc, 'sup_cancel': sup_cancel,
+            'pa2': pa2, 'persist': persist, 'stopf': stopf, 'mtc': mtc, 'sup_cancel': sup_cancel,
             'nonfatal': nonfatal, 'polls': list(POLLS), 't_late': T_LATE}
 
 
@@ -290,7 +301,7 @@ def _gen_systematic(rng, index):
         if kind == 'init_early' and phase == 'running':
             t = 0.4
         return _finish(rng, entry, [_mk_source(rng, kind, t, 0)], d_init=d_init, d_stop=d_stop,
-                       systematic=True)
+                       systematic=True, pa2_p=0.6 if phase == 'init' else 0.1)
     k -= n_single
     pairs = _pairs(kinds)
     if k >= len(pairs) * len(PATTERNS):
@@ -336,7 +347,8 @@ def _gen_systematic(rng, index):
         # the roles of the two kinds are swapped in half of the plans
         ta, tb, ha, hb = tb, ta, hb, ha
     return _finish(rng, entry, [_mk_source(rng, a, ta, ha), _mk_source(rng, b, tb, hb)],
-                   d_init=d_init, d_stop=d_stop, systematic=True)
+                   d_init=d_init, d_stop=d_stop, systematic=True,
+                   pa2_p=0.6 if pat == 'init_phase' else 0.1)
 
 
 def gen(rng, tier, index=0):
@@ -614,10 +626,27 @@ class PStop(edzed.SBlock):
             self.x_ev.send(self, tag=spec['tag'], kind='handler_stop')
 
 
-class ZLast(edzed.SBlock):
-    """Created last: its start() marks the end of the start phase."""
+class PAsyncInit(edzed.AddonAsync, edzed.SBlock):
+    """A second, slower asynchronous initialisation."""
 
     def init_regular(self):
+        if not self.is_initialized():
+            self.set_output('regular')
+
+    async def init_async(self):
+        await asyncio.sleep(self.x_spec['d_init'])
+        if not self.is_initialized():
+            self.set_output('async')
+
+
+class ZLast(edzed.SBlock):
+    """
+    Created last: its start() marks the end of the start phase, its init_regular() the end
+    of the second synchronous initialisation pass.
+    """
+
+    def init_regular(self):
+        self.x_ctx.rec('init2')
         self.set_output(0)
 
     def start(self):
@@ -788,6 +817,9 @@ def build(ctx, plan, storage):
             pa = plan['pa']
             blocks['pa'] = PAsync('pa', x_ctx=ctx, x_spec=pa, init_timeout=10.0,
                                   stop_timeout=10.0)
+        if plan.get('pa2'):
+            blocks['pa2'] = PAsyncInit('pa2', x_spec=plan['pa2'],
+                                       init_timeout=plan['pa2'].get('init_timeout', 8.0))
         if plan.get('persist'):
             blk = blocks['pp'] = PPersist('pp', x_ctx=ctx, x_spec=plan['persist'],
                                           persistent=True)
@@ -1410,13 +1442,47 @@ def judge(run, ctx, plan, info):
                          f"{got} ({ob[2]!r}); recorded order {order}")
 
     # ---- a delivered error / cancellation ends the simulation by itself, in bounded time
+    #      (bound: the longest clean-up, about 1 s here - not the init routines' time-outs),
+    #      and a stop delivered before the second initialisation pass keeps the circuit from
+    #      ever reaching the running state
+    d0 = next((e for e in deliv if e['k'] in ('fatal', 'cancel', 'creq')), None)
+    ended_rec = next((e for e in D if e['k'] == 'ended'), None)
+    if d0 is not None and ended_rec is not None:
+        what = d0.get('kind') or ('raw-cancel' if d0['k'] == 'creq' else 'cancel')
+        phase = 'running' if d0['initd'] else 'initialising'
+        took = (ended_rec['ns'] - d0['ns']) / 1e9
+        if took > 2.5:
+            run.violate(f"C09/not-terminated-promptly/{what}/{phase}",
+                        f"entry {entry}: {d0['k']} {what} was delivered at {d0['ns'] / 1e9:.3f}s "
+                        f"({phase}), the entry point ended {took:.3f}s later; the longest "
+                        f"clean-up here takes about 1 s (init time-outs: 10 s"
+                        f"{', ' + str(plan['pa2'].get('init_timeout')) + ' s' if plan.get('pa2') else ''})")
+        if not d0['initd'] and any(e['k'] == 'started' and e['i'] < d0['i'] for e in D):
+            if d0.get('kind') not in INIT_KINDS:
+                # (the faults of INIT_KINDS fire inside an initialisation pass, which may then
+                # run to its end)
+                nxt2 = next((e for e in D[d0['i'] + 1:] if e['k'] == 'init2'), None)
+                if nxt2 is not None:
+                    run.violate(f"C09/initialisation-continued-after-stop/{what}",
+                                f"entry {entry}: {d0['k']} {what} was delivered at "
+                                f"{d0['ns'] / 1e9:.3f}s before the second synchronous "
+                                f"initialisation pass, which was run nevertheless "
+                                f"(at {nxt2['ns'] / 1e9:.3f}s)")
+            run_state = next((e for e in D[d0['i'] + 1:] if e['initd']), None)
+            if run_state is not None:
+                run.violate(f"C09/reached-running-state-after-stop/{what}",
+                            f"entry {entry}: {d0['k']} {what} was delivered at "
+                            f"{d0['ns'] / 1e9:.3f}s during the initialisation, yet the circuit "
+                            f"was fully initialised and simulating at record {run_state['i']} "
+                            f"({run_state['ns'] / 1e9:.3f}s)")
     late = next((e for e in D if e['k'] == 'req' and e.get('label') == 'late'), None)
     if late is not None:
         # (the harness's late shutdown() is only issued while the entry point is running)
-        pending = next((e for e in deliv if e['k'] in ('fatal', 'cancel') and e['i'] < late['i']
+        pending = next((e for e in deliv if e['k'] in ('fatal', 'cancel', 'creq')
+                        and e['i'] < late['i']
                         and e['ns'] + 3_000_000_000 <= late['ns']), None)
         if pending is not None:
-            what = pending.get('kind') or 'cancel'
+            what = pending.get('kind') or ('raw-cancel' if pending['k'] == 'creq' else 'cancel')
             run.violate(f"C09/not-terminated-by-itself/{what}",
                         f"entry {entry}: {pending['k']} {what} was delivered at "
                         f"{pending['ns'] / 1e9:.3f}s (Circuit.error then "
@@ -1540,6 +1606,10 @@ def judge(run, ctx, plan, info):
                 run.fired('reach:shutdown_during_cleanup')
     if any(e['k'] == 'early' for e in D):
         run.fired('reach:init_error_in_early_init')
+    if (plan.get('pa2') and plan.get('pa') and started is not None and not first['initd']
+            and first['i'] > started['i'] and first.get('kind') not in INIT_KINDS
+            and 0 < first['ns'] - started['ns'] < 3_000_000_000):
+        run.fired('reach:stop_while_init_task_awaited_other_pending')
     if any(e['k'] == 'fatal' and e['kind'] in ('init_abort', 'init_ctrl_abort', 'init_ofunc_abort')
            for e in D):
         run.fired('reach:abort_during_sync_init_nothing_raised')
